@@ -211,6 +211,11 @@ func (bsp *batchSpanProcessor) ForceFlush(ctx context.Context) error {
 			case <-ctx.Done():
 				return ctx.Err()
 			}
+		} else if err := ctx.Err(); err != nil {
+			// The flush marker could not be enqueued before ctx ended: the
+			// spans queued ahead of it have not been processed, do not report
+			// success (the export below may find an empty batch).
+			return err
 		}
 
 		wait := make(chan error, 1)
